@@ -9,6 +9,7 @@
 package cert
 
 import (
+	"bytes"
 	"crypto"
 	"crypto/ecdsa"
 	"crypto/elliptic"
@@ -471,6 +472,7 @@ func ReadPem(pemBytes []byte) (PemFileContent, error) {
 			if err != nil {
 				return pemFileContent, err
 			}
+			preserveNameEncoding(p.Bytes, cert)
 			pemFileContent.Certificate = cert
 
 		case "CERTIFICATE REQUEST":
@@ -492,6 +494,68 @@ func ReadPem(pemBytes []byte) (PemFileContent, error) {
 	}
 
 	return pemFileContent, nil
+}
+
+// Mirrors of [Certificate] and [TbsCertificate] that keep both names undecoded.
+type certificateRawNames struct {
+	TBSCertificate     tbsCertificateRawNames
+	SignatureAlgorithm pkix.AlgorithmIdentifier
+	SignatureValue     asn1.BitString
+}
+
+type tbsCertificateRawNames struct {
+	Version            int `asn1:"optional,explicit,default:0,tag:0"`
+	SerialNumber       *big.Int
+	SignatureAlgorithm pkix.AlgorithmIdentifier
+	Issuer             asn1.RawValue
+	Validity           validity
+	Subject            asn1.RawValue
+	PublicKey          PublicKeyInfo
+	IssuerUniqueId     asn1.BitString   `asn1:"optional,tag:1"`
+	SubjectUniqueId    asn1.BitString   `asn1:"optional,tag:2"`
+	Extensions         []pkix.Extension `asn1:"omitempty,optional,explicit,tag:3"`
+}
+
+type rawAttributeTypeAndValue struct {
+	Type  asn1.ObjectIdentifier
+	Value asn1.RawValue
+}
+
+type rawRelativeDistinguishedNameSET []rawAttributeTypeAndValue
+
+// encoding/asn1 decodes every string type of a name attribute into a Go
+// string and picks PrintableString or UTF8String when it encodes it again.
+// A name that is copied from an imported certificate into a new one (the
+// issuer DN of everything issued under it) would therefore change its bytes
+// whenever the other tool chose differently (UTF8String for printable text,
+// IA5String, TeletexString). Keep the original encoding of exactly those
+// attribute values.
+func preserveNameEncoding(der []byte, c *Certificate) {
+	var raw certificateRawNames
+	if _, err := asn1.Unmarshal(der, &raw); err != nil {
+		return
+	}
+
+	keep := func(rawName asn1.RawValue, name pkix.RDNSequence) {
+		var rdns []rawRelativeDistinguishedNameSET
+		if _, err := asn1.Unmarshal(rawName.FullBytes, &rdns); err != nil || len(rdns) != len(name) {
+			return
+		}
+		for i := range name {
+			if len(rdns[i]) != len(name[i]) {
+				return
+			}
+			for j := range name[i] {
+				again, err := asn1.Marshal(name[i][j].Value)
+				if err != nil || !bytes.Equal(again, rdns[i][j].Value.FullBytes) {
+					name[i][j].Value = rdns[i][j].Value
+				}
+			}
+		}
+	}
+
+	keep(raw.TBSCertificate.Issuer, c.TBSCertificate.Issuer)
+	keep(raw.TBSCertificate.Subject, c.TBSCertificate.Subject)
 }
 
 // Syntactic sugar to yield a [config.IssuerContext] from a
